@@ -61,6 +61,12 @@ def tokenize(s):
             yield (Token.char, c)
 
 
+def _emit_char(outstream, value):
+    # Unlike in a dependency, a `%` in a target makes the rule a pattern rule,
+    # so escape it to keep naming the dependency itself.
+    outstream.write('\\%' if value == '%' else value)
+
+
 def emit_deps(instream, outstream):
     state = State.target
 
@@ -81,7 +87,7 @@ def emit_deps(instream, outstream):
                 raise UnexpectedTokenError(tok)
         elif state == State.dep:
             if tok == Token.char:
-                outstream.write(value)
+                _emit_char(outstream, value)
             elif tok == Token.space:
                 outstream.write(':\n')
                 state = State.between_deps
@@ -93,7 +99,7 @@ def emit_deps(instream, outstream):
         else:  # state == State.between_deps
             if tok == Token.char:
                 state = State.dep
-                outstream.write(value)
+                _emit_char(outstream, value)
             elif tok == Token.newline:
                 state = State.target
             elif tok != Token.space:
